@@ -67,10 +67,35 @@ def compareHM (H : String → UInt64) (policy : Nat → Nat → Bool) (r c : T) 
       match C04.reinit H c with
       | .err _ => .res .err
       | .ok (_, cidx) =>
+        -- `if inerr = refTree.CompareTipIndexes(treeV.Tree); inerr == nil {` (since fix e41ab42)
         if !compareTipIndexes r.tipNames c.tipNames then .res .err else
         match cmpLoopHM index tips sc (cidx.zip c.splits) ⟨0, 0, true⟩ with
         | none => .panic
         | some st =>
+          .res (.ok ⟨(total : Int) - st.common, st.common, (st.total2 : Int) - st.common,
+                     st.same && st.total2 == total⟩)
+
+/-- `Compare` as it was before fix e41ab42 (`err == nil` tested where `inerr` was meant): the loop
+    runs on a tree with other taxa too, then the record carries `Err` -/
+def compareHMFallthrough (H : String → UInt64) (policy : Nat → Nat → Bool) (r c : T) (tips sc : Bool) : HOut Stats :=
+  match C04.reinit H r with
+  | .err _ => .res .refErr
+  | .ok (_, ridx) =>
+    match buildHM policy ridx r.splits with
+    | none => .panic
+    | some index =>
+      let total := r.splits.countP (counted tips)
+      match C04.reinit H c with
+      | .err _ => .res .err
+      | .ok (_, cidx) =>
+        -- algo.go: `if inerr = refTree.CompareTipIndexes(treeV.Tree); err == nil {` tests the outer
+        -- `err` (nil here) instead of `inerr`: the loop runs on trees with other taxa too (bitsets
+        -- of another width are looked up), and the record then carries both the counts and `Err`;
+        -- a caller may only look at `Err`.
+        match cmpLoopHM index tips sc (cidx.zip c.splits) ⟨0, 0, true⟩ with
+        | none => .panic
+        | some st =>
+          if !compareTipIndexes r.tipNames c.tipNames then .res .err else
           .res (.ok ⟨(total : Int) - st.common, st.common, (st.total2 : Int) - st.common,
                      st.same && st.total2 == total⟩)
 
@@ -133,5 +158,28 @@ def compareWeightedHM (H : String → UInt64) (policy : Nat → Nat → Bool) (r
             match wLoop2HM compIdx tips sc (ridx.zip r.splits) s1 with
             | none => .panic
             | some (rf, s2) => .res (.ok ⟨rf, cp, co, s2⟩)
+
+/-- `CompareWeighted` before fix e41ab42: both loops run whatever the taxon check said -/
+def compareWeightedHMFallthrough (H : String → UInt64) (policy : Nat → Nat → Bool) (r c : T) (tips sc : Bool) : HOut WStats :=
+  match C04.reinit H r with
+  | .err _ => .res .refErr
+  | .ok (_, ridx) =>
+    match buildHM policy ridx r.splits with
+    | none => .panic
+    | some refIdx =>
+      match C04.reinit H c with
+      | .err _ => .res .err
+      | .ok (_, cidx) =>
+        match buildHM policy cidx c.splits with
+        | none => .panic
+        | some compIdx =>
+          -- (same slip as in `Compare`: both loops run whatever `CompareTipIndexes` said)
+          match wLoop1HM refIdx tips sc (cidx.zip c.splits) true with
+          | none => .panic
+          | some (co, cp, s1) =>
+            match wLoop2HM compIdx tips sc (ridx.zip r.splits) s1 with
+            | none => .panic
+            | some (rf, s2) =>
+              if !compareTipIndexes r.tipNames c.tipNames then .res .err else .res (.ok ⟨rf, cp, co, s2⟩)
 
 end Gotree.C08
